@@ -83,6 +83,7 @@ func runListCase(c *ListCase, b *Batch, res *Result) error {
 	b.Add(tag+" begin", line(begin...), "ok")
 	var got []string
 	failed := false
+	sawEOF := false
 	for i, n := range c.Counts {
 		var names []string
 		var cerr error
@@ -107,11 +108,17 @@ func runListCase(c *ListCase, b *Batch, res *Result) error {
 			out = []string{"err", errClass(cerr)}
 			failed = true
 		}
+		if sawEOF && len(names) > 0 {
+			res.violate(Violation{Property: listingProp, What: fmt.Sprintf("listing call %d (count %d) on %q with hidden %q returned %q after an earlier call had reported io.EOF: EOF before the directory was exhausted", i, n, c.Dir, c.Hidden, names), Case: c})
+		}
+		if out[0] == "eof" {
+			sawEOF = true
+		}
 		got = append(got, names...)
 		b.Add(fmt.Sprintf("%s call%d count=%d", tag, i, n), line("list.names", itoa(n)), line(out...))
 		res.count("list.call." + out[0])
 		if out[0] == "ok+eof" || (out[0] == "err") {
-			res.violate(Violation{Property: "C11", What: fmt.Sprintf("listing call %d (count %d) on %q with hidden %q returned %v", i, n, c.Dir, c.Hidden, out), Case: c})
+			res.violate(Violation{Property: listingProp, What: fmt.Sprintf("listing call %d (count %d) on %q with hidden %q returned %v", i, n, c.Dir, c.Hidden, out), Case: c})
 		}
 	}
 	// C11 oracle: the concatenated batches are exactly the visible entries, each once, in base order
@@ -128,13 +135,22 @@ func runListCase(c *ListCase, b *Batch, res *Result) error {
 			want = append(want, n)
 		}
 	}
-	if !failed && strings.Join(got, "\x00") != strings.Join(want, "\x00") {
-		res.violate(Violation{Property: "C11", What: fmt.Sprintf("listing of %q (hidden %q, counts %v, readdir=%v) returned %q, the visible entries in base order are %q", c.Dir, c.Hidden, c.Counts, c.Readdir, got, want), Case: c})
+	if !failed && sawEOF && len(got) < len(want) {
+		res.violate(Violation{Property: listingProp, What: fmt.Sprintf("listing of %q (hidden %q, counts %v, readdir=%v) reported io.EOF after %q, the visible entries are %q", c.Dir, c.Hidden, c.Counts, c.Readdir, got, want), Case: c})
+	} else if !failed && strings.Join(got, "\x00") != strings.Join(want, "\x00") {
+		res.violate(Violation{Property: listingProp, What: fmt.Sprintf("listing of %q (hidden %q, counts %v, readdir=%v) returned %q, the visible entries in base order are %q", c.Dir, c.Hidden, c.Counts, c.Readdir, got, want), Case: c})
 	}
 	return nil
 }
 
+// listingProp: the property the listing oracle reports under (C11; C04 "cannot … list" when the
+// check of the sealed backup location runs this stream)
+var listingProp = "C11"
+
 func streamListing(cfg *Config, res *Result) error {
+	if cfg.Prop == "C04" {
+		listingProp = "C04"
+	}
 	r := newRNG(cfg.Seed, "listing")
 	n := 1500
 	if cfg.Tier == "thorough" {
